@@ -86,6 +86,61 @@ fn enum_grid() -> Vec<Case> {
     cases
 }
 
+/// Systematic family: typedefs of scalars, of typedefs, of pointers, of structs and of arrays,
+/// used as constant variables with initialisers, extern variables, members, parameters and
+/// return types, under the three alias styles (globally and per pattern).
+fn alias_grid() -> Vec<Case> {
+    use crate::cmodel::{ArrLen, Comp, Decl, Field, FieldTy, FuncDecl, Prim, Program, Ty};
+    let td = |name: &str, ty: Ty| Decl::Typedef { name: name.to_string(), ty, aligned: None };
+    let mut decls = vec![
+        td("Handle", Ty::Prim(Prim::UInt)),                                                               // 0
+        td("Handle2", Ty::Named(0)),                                                                      // 1
+        td("Real", Ty::Prim(Prim::Double)),                                                               // 2
+        td("IntPtr", Ty::Ptr { to: Box::new(Ty::Prim(Prim::Int)), is_const: false }),                     // 3
+        Decl::Comp(Comp { is_union: false, tag: Some("Rec".into()), fields: vec![Field { name: "h".into(), ty: FieldTy::Ty(Ty::Named(0)), bits: None, align: None }, Field { name: "r".into(), ty: FieldTy::Ty(Ty::Named(2)), bits: None, align: None }], packed: false, aligned: None, pragma_pack: None, typedef_name: None }), // 4
+        td("RecAlias", Ty::Named(4)),                                                                     // 5
+        td("Triple", Ty::Array { of: Box::new(Ty::Named(0)), dims: vec![ArrLen::Fixed(3)] }),            // 6
+        td("Flag", Ty::Prim(Prim::Bool)),                                                                 // 7
+        td("Small", Ty::Prim(Prim::SChar)),                                                               // 8
+    ];
+    for (k, (t, v)) in [(0usize, 4294967i32), (1, 7), (2, 3), (7, 1), (8, -5), (0, 0)].iter().enumerate() {
+        decls.push(Decl::Var { name: format!("K{k}"), ty: Ty::Named(*t), is_const: true, init: Some(*v) });
+    }
+    decls.push(Decl::Var { name: "g_handle".into(), ty: Ty::Named(1), is_const: false, init: None });
+    decls.push(Decl::Var { name: "g_rec".into(), ty: Ty::Named(5), is_const: true, init: None });
+    decls.push(Decl::Comp(Comp {
+        is_union: false,
+        tag: Some("Uses".into()),
+        fields: vec![
+            Field { name: "a".into(), ty: FieldTy::Ty(Ty::Named(1)), bits: None, align: None },
+            Field { name: "p".into(), ty: FieldTy::Ty(Ty::Named(3)), bits: None, align: None },
+            Field { name: "t".into(), ty: FieldTy::Ty(Ty::Named(6)), bits: None, align: None },
+            Field { name: "bits".into(), ty: FieldTy::Ty(Ty::Prim(Prim::UInt)), bits: Some(5), align: None },
+            Field { name: "rec".into(), ty: FieldTy::Ty(Ty::Named(5)), bits: None, align: None },
+        ],
+        packed: false,
+        aligned: None,
+        pragma_pack: None,
+        typedef_name: None,
+    }));
+    decls.push(Decl::Func(FuncDecl { name: "open_it".into(), ret: Ty::Named(0), params: vec![("path".into(), Ty::Ptr { to: Box::new(Ty::Prim(Prim::Char)), is_const: true }), ("h".into(), Ty::Named(1)), ("r".into(), Ty::Named(5))], variadic: false, is_static_inline: false }));
+    let mut prog = Program { decls };
+    prog.normalise();
+    let mut cases = vec![];
+    let styles: [&[&str]; 6] = [
+        &["--default-alias-style", "type_alias"],
+        &["--default-alias-style", "new_type"],
+        &["--default-alias-style", "new_type_deref"],
+        &["--new-type-alias", "Handle.*", "--new-type-alias-deref", "Re.*"],
+        &["--default-alias-style", "new_type", "--normal-alias", "Handle2", "--new-type-alias-deref", "Flag"],
+        &["--default-alias-style", "new_type_deref", "--with-derive-default", "--with-derive-hash", "--with-derive-partialeq"],
+    ];
+    for st in styles {
+        cases.push(Case { source: Source::Gen(prog.clone()), flags: st.iter().map(|s| s.to_string()).collect(), callbacks: vec![], keep_known: false });
+    }
+    cases
+}
+
 const EXTRA_FLAGS: &[&[&str]] = &[
     &["--sort-semantically"],
     &["--merge-extern-blocks"],
@@ -224,7 +279,35 @@ pub fn error_class(stderr: &str) -> (String, String) {
                     skel.push(c);
                 }
             }
-            let skel: String = skel.split_whitespace().take(8).collect::<Vec<_>>().join("-");
+            let mut skel: String = skel.split_whitespace().take(8).collect::<Vec<_>>().join("-");
+            if code == "E0308" {
+                // "mismatched types" says nothing: add what was expected and found, keeping the names
+                // of bindgen's helper types and dropping user names
+                if let Some(label) = stderr.lines().skip_while(|x| *x != l).find(|x| x.contains("^ expected ") || x.contains("^ expected")) {
+                    let text = label.split('^').last().unwrap_or("").trim();
+                    let mut out = String::new();
+                    let mut in_tick = false;
+                    let mut tick = String::new();
+                    for c in text.chars() {
+                        if c == '`' {
+                            in_tick = !in_tick;
+                            if !in_tick {
+                                const HELPERS: &[&str] = &["__BindgenBitfieldUnit", "ManuallyDrop", "__BindgenUnionField", "__IncompleteArrayField", "__BindgenOpaqueArray", "Option", "fn"];
+                                let kept: Vec<&str> = HELPERS.iter().copied().filter(|h| tick.contains(h)).collect();
+                                out.push_str(&if kept.is_empty() { "_".to_string() } else { kept.join("+") });
+                                tick.clear();
+                            }
+                            continue;
+                        }
+                        if in_tick {
+                            tick.push(c);
+                        } else if !c.is_ascii_digit() {
+                            out.push(c);
+                        }
+                    }
+                    skel = format!("{skel}:{}", out.split_whitespace().take(8).collect::<Vec<_>>().join("-"));
+                }
+            }
             return (code, skel);
         }
     }
@@ -512,6 +595,7 @@ impl Property for C01 {
     fn fixed_cases(&self, _tier: Tier) -> Vec<Case> {
         let mut v: Vec<Case> = corpus::load_all().into_iter().filter(repo_header_usable).map(|h| Case { source: Source::Mut { header: h.name, edits: vec![], splice_from: None }, flags: vec![], callbacks: vec![], keep_known: false }).collect();
         v.extend(enum_grid());
+        v.extend(alias_grid());
         v
     }
     fn evaluate(&self, case: &Case, env: &Env) -> Outcome {
@@ -577,6 +661,7 @@ impl Property for C01 {
                     skel = c;
                 }
             }
+            out.class(format!("rejected-by-rustc:{kind}"));
             out.fail(
                 format!("rustc-rejects/{code}/{skel}"),
                 format!("[{kind}] flags {:?} callbacks {:?} edition {edition}:\n{}\n--- header ---\n{}", input.flags, case.callbacks, o.stderr.chars().take(1800).collect::<String>(), text.chars().take(3000).collect::<String>()),
